@@ -242,7 +242,7 @@ def n0pretty(
                 if isinstance(item, dict):
                     key = sub_item
 
-                    if indent_ < 111:
+                    if indent_ < 111 or json_convention:  # the depth guard shortens debug prints only: a JSON export must stay JSON
                         sub_item_value = n0pretty(
                                                 dict.__getitem__(item, key),
                                                 indent_ + 1,
@@ -290,7 +290,7 @@ def n0pretty(
                     else:
                         sub_item_value = ""
 
-                    if indent_ < 111:
+                    if indent_ < 111 or json_convention:
                         sub_item_text = str(n0pretty(
                                                 sub_item,
                                                 indent_ + 1,
